@@ -416,6 +416,8 @@ class Model:
                 normalize.insort_form(tree)
                 for c in normalize.fold_new_constants(tree, ref['module_names'].get(name)):
                     self.inlined.append('constant %s.%s read through' % (name, c))
+                for s_ in normalize.restore_methods(tree, name, set(ref['functions']), ref['locals']):
+                    self.inlined.append('new nested function read as the method it was: %s' % s_)
                 for s_ in normalize.restore_closures(tree, name, set(ref['functions']), ref['locals']):
                     self.inlined.append('new staticmethod read as the closure it was: %s' % s_)
                 for s_ in normalize.restore_staticmethods(tree, name, ref['functions']):
